@@ -973,9 +973,11 @@ pub fn gen_kid(rng: &mut Rng) -> KidSpec {
 		0 => KidSpec::Sha384,
 		1 => KidSpec::Sha512,
 		2 => KidSpec::Pre({
-			let n = match rng.below(4) {
+			let n = match rng.below(5) {
 				0 => 0,
 				1 => 20,
+				// identifiers around the long-form length steps of the OCTET STRING (and of the extension value)
+				2 => *rng.pick(&[21usize, 32, 48, 64, 125, 126, 127, 128, 129, 130, 255, 256, 257, 300]),
 				_ => rng.below(65) as usize,
 			};
 			rng.bytes(n)
